@@ -598,7 +598,7 @@ struct Lower {
       if (auto* VD = dyn_cast<VarDecl>(D)) {
         if (!VD->isLocalVarDeclOrParm() || VD->isStaticLocal()) {
           Expr::EvalResult R;
-          if (VD->getType().isConstQualified() && VD->getType()->isIntegralOrEnumerationType() && E->EvaluateAsInt(R, C))
+          if (!wantLvalue && VD->getType().isConstQualified() && VD->getType()->isIntegralOrEnumerationType() && E->EvaluateAsInt(R, C))
             return lit(R.Val.getInt(), E->getType());
           if (VD->getType()->isReferenceType()) dieD("global reference", VD);
           return globalVar(VD);
@@ -851,6 +851,7 @@ struct Lower {
   }
 
   bool voidContext = false;
+  bool wantLvalue = false;  // the expression being lowered is bound to a reference / has its address taken
 
   template <typename Range>
   std::string joinArgs(std::string first, const FunctionDecl* F, Range args, Ctx& cx) {
@@ -874,7 +875,10 @@ struct Lower {
           a = ex(A, cx);
         }
       } else {
+        bool saved = wantLvalue;
+        wantLvalue = isRef && isa<DeclRefExpr>(A->IgnoreParenImpCasts());
         a = ex(A, cx);
+        wantLvalue = saved;
         if (isRef) a = "(&" + a + ")";
       }
       s += (s.empty() ? "" : ", ") + a;
